@@ -1,0 +1,106 @@
+package service
+
+import "github.com/ludo-technologies/pyscn/domain"
+
+// The MergeConfig implementations decide whether a request value was given on
+// the command line by comparing it with a built-in default, so a flag that is
+// passed explicitly with that default (e.g. `--min-severity warning`) cannot be
+// told apart from an absent flag and loses to the configuration file.
+//
+// The wrappers below are for commands that know which flags were set (cobra's
+// Flags().Changed): they re-apply the explicitly given value after the regular
+// merge, so that an explicit flag always wins over the configuration file.
+
+// explicitMinComplexityLoader makes the request's MinComplexity win the merge.
+type explicitMinComplexityLoader struct {
+	domain.ConfigurationLoader
+}
+
+// WithExplicitMinComplexity wraps loader for a request whose MinComplexity was
+// explicitly set on the command line.
+func WithExplicitMinComplexity(loader domain.ConfigurationLoader) domain.ConfigurationLoader {
+	return &explicitMinComplexityLoader{ConfigurationLoader: loader}
+}
+
+// MergeConfig merges as the wrapped loader does, then applies the explicit value.
+func (l *explicitMinComplexityLoader) MergeConfig(base *domain.ComplexityRequest, override *domain.ComplexityRequest) *domain.ComplexityRequest {
+	merged := l.ConfigurationLoader.MergeConfig(base, override)
+	if merged != nil && override != nil {
+		merged.MinComplexity = override.MinComplexity
+	}
+	return merged
+}
+
+// explicitMinSeverityLoader makes the request's MinSeverity win the merge.
+type explicitMinSeverityLoader struct {
+	domain.DeadCodeConfigurationLoader
+}
+
+// WithExplicitMinSeverity wraps loader for a request whose MinSeverity was
+// explicitly set on the command line.
+func WithExplicitMinSeverity(loader domain.DeadCodeConfigurationLoader) domain.DeadCodeConfigurationLoader {
+	return &explicitMinSeverityLoader{DeadCodeConfigurationLoader: loader}
+}
+
+// MergeConfig merges as the wrapped loader does, then applies the explicit value.
+func (l *explicitMinSeverityLoader) MergeConfig(base *domain.DeadCodeRequest, override *domain.DeadCodeRequest) *domain.DeadCodeRequest {
+	merged := l.DeadCodeConfigurationLoader.MergeConfig(base, override)
+	if merged != nil && override != nil {
+		merged.MinSeverity = override.MinSeverity
+	}
+	return merged
+}
+
+// explicitMinCBOLoader makes the request's MinCBO win the merge.
+type explicitMinCBOLoader struct {
+	domain.CBOConfigurationLoader
+}
+
+// WithExplicitMinCBO wraps loader for a request whose MinCBO was explicitly set
+// on the command line.
+func WithExplicitMinCBO(loader domain.CBOConfigurationLoader) domain.CBOConfigurationLoader {
+	return &explicitMinCBOLoader{CBOConfigurationLoader: loader}
+}
+
+// MergeConfig merges as the wrapped loader does, then applies the explicit value.
+func (l *explicitMinCBOLoader) MergeConfig(base *domain.CBORequest, override *domain.CBORequest) *domain.CBORequest {
+	merged := l.CBOConfigurationLoader.MergeConfig(base, override)
+	if merged != nil && override != nil {
+		merged.MinCBO = override.MinCBO
+	}
+	return merged
+}
+
+// explicitSimilarityLoader makes an explicitly given similarity threshold win.
+// The clone use case merges the loaded configuration with the request itself
+// (request value unless it equals the default), so the explicit value is put
+// into the loaded configuration: whichever side the merge takes, it is the
+// value given on the command line.
+type explicitSimilarityLoader struct {
+	domain.CloneConfigurationLoader
+	similarityThreshold float64
+}
+
+// WithExplicitSimilarityThreshold wraps loader for a request whose
+// SimilarityThreshold was explicitly set on the command line.
+func WithExplicitSimilarityThreshold(loader domain.CloneConfigurationLoader, similarityThreshold float64) domain.CloneConfigurationLoader {
+	return &explicitSimilarityLoader{CloneConfigurationLoader: loader, similarityThreshold: similarityThreshold}
+}
+
+// LoadCloneConfig loads the configuration and applies the explicit threshold.
+func (l *explicitSimilarityLoader) LoadCloneConfig(configPath string) (*domain.CloneRequest, error) {
+	cfg, err := l.CloneConfigurationLoader.LoadCloneConfig(configPath)
+	if err == nil && cfg != nil {
+		cfg.SimilarityThreshold = l.similarityThreshold
+	}
+	return cfg, err
+}
+
+// GetDefaultCloneConfig returns the default configuration with the explicit threshold.
+func (l *explicitSimilarityLoader) GetDefaultCloneConfig() *domain.CloneRequest {
+	cfg := l.CloneConfigurationLoader.GetDefaultCloneConfig()
+	if cfg != nil {
+		cfg.SimilarityThreshold = l.similarityThreshold
+	}
+	return cfg
+}
